@@ -104,6 +104,11 @@ class GB58:
                 return GB58(self.row, self.payload, other.items[1], self.as_bytes)
             if isinstance(other, str) and other.startswith('%') and other.count('%') == 1:
                 return GB58(self.row, self.payload, other[1:], self.as_bytes)
+        if isinstance(op, ast.Add) and not refl and self.ep == '' and isinstance(other, (str, DecodedStr)):
+            # address + '%' + name  (two concatenations)
+            if isinstance(other, str) and '%' in other:
+                return NotImplemented
+            return GB58(self.row, self.payload, other, self.as_bytes)
         return NotImplemented
 
     def same(self, eng, other):
